@@ -23,7 +23,8 @@ import (
 )
 
 func init() {
-	setSched = func(seed int64) { vm.VerifSetSched(seed, false) }
+	prev := setSched
+	setSched = func(seed int64) { prev(seed); vm.VerifSetSched(seed, false) }
 	modes["c16"] = c16Mode
 }
 
